@@ -953,6 +953,9 @@ class Builtins:
             finally:
                 s.env = saved
 
+        bulk = self.simple_ctor_call(st, n.elt)
+        if bulk is not None and not g.ifs and kind == "list" and not st.spec_mode:
+            return self.bulk_construct(st, n, g, itv, arr, nlen, bind, bulk)
         # safety of evaluating the element expression / conditions on every element (no exception inside)
         if not st.spec_mode:
             self.comp_safety(st, n, g, itv, arr, nlen, bind)
@@ -962,6 +965,107 @@ class Builtins:
         if kind == "set":
             return self.set_from_iter(st, comp, n)
         return self.comp_to_list(st, comp, n)
+
+    def simple_ctor_call(self, st, elt):
+        """elt is `Cls(args...)` of a repository class whose __init__ only stores its parameters (or a dataclass)."""
+        eng = self.eng
+        if not isinstance(elt, ast.Call) or elt.keywords or not isinstance(elt.func, ast.Name):
+            return None
+        try:
+            fv = eng.lookup(st, elt.func.id, elt)
+        except E.Unsupported:
+            return None
+        if not isinstance(fv, VClass):
+            return None
+        cls = fv.cls
+        init = cls.find_method("__init__")
+        fields = []
+        if init is None and cls.is_dataclass:
+            fields = [(f, i) for i, (f, _a, _d) in enumerate(cls.dc_fields)]
+        elif init is not None:
+            params = [p.arg for p in init.node.args.args][1:]
+            for stt in init.node.body:
+                if isinstance(stt, ast.Expr) and isinstance(stt.value, ast.Constant):
+                    continue
+                if isinstance(stt, ast.Assign) and len(stt.targets) == 1 and isinstance(stt.targets[0], ast.Attribute) \
+                        and isinstance(stt.targets[0].value, ast.Name) and stt.targets[0].value.id == "self" \
+                        and isinstance(stt.value, ast.Name) and stt.value.id in params:
+                    fields.append((stt.targets[0].attr, params.index(stt.value.id)))
+                else:
+                    return None
+            if len(elt.args) != len(params):
+                return None
+        else:
+            return None
+        if len(elt.args) != len(fields) and init is None:
+            return None
+        return cls, fields
+
+    def bulk_construct(self, st, n, g, itv, arr, nlen, bind, bulk, _inner=None):
+        """[Cls(e1(x), ..) for x in xs]: one fresh object per element, refs base+1+k; fields given by the argument terms.
+        Nested simple constructors among the arguments get their own block of references."""
+        eng = self.eng
+        cls, fields = bulk
+        k = z3.Int("bk!")
+        s = st.fork()
+        s.spec_mode = 1
+        x_k = eng.wrap(s, z3.Select(arr, k), itv.elem)
+        eng.assume_wf(s, x_k)
+        saved_env = s.env
+        bind(s, x_k)
+        blocks = []     # (cls, base_offset_index, {field: term(k)})
+        arg_terms = []
+        nested = []
+        for a in n.elt.args:
+            inner = self.simple_ctor_call(s, a)
+            if inner is not None:
+                icls, ifields = inner
+                ivals = {}
+                for f, idx in ifields:
+                    v = eng.ev(a.args[idx], s)
+                    ivals[f] = eng.unwrap(s, v, eng.field_type(icls, f))
+                nested.append((icls, ivals))
+                arg_terms.append(("nested", len(nested) - 1))
+            else:
+                arg_terms.append(("val", eng.ev(a, s)))
+        s.env = saved_env
+        base = st.alloc
+        total_blocks = 1 + len(nested)
+        ref_of = lambda blk, kk: base + 1 + blk * nlen + kk
+        vals = {}
+        for f, idx in fields:
+            kind_, v = arg_terms[idx]
+            if kind_ == "nested":
+                vals[f] = ref_of(1 + v, k)
+            else:
+                vals[f] = eng.unwrap(s, v, eng.field_type(cls, f))
+        self._flow_assumptions(st, s, [k])
+        r = z3.Int("br!")
+
+        def write_block(c, blk, fvals):
+            for f, term in fvals.items():
+                ft = eng.field_type(c, f)
+                owner = eng.field_owner(c, f)
+                cur = st.fmap(owner, f, sort_of(ft))
+                nm = st.fresh("bm_" + f, cur.sort())
+                off = base + 1 + blk * nlen
+                st.assume(FA([r], z3.Implies(z3.And(r >= off, r < off + nlen), z3.Select(nm, r) == z3.substitute(term, (k, r - off))),
+                             patterns=[z3.Select(nm, r)]))
+                st.assume(FA([r], z3.Implies(r <= base, z3.Select(nm, r) == z3.Select(cur, r)), patterns=[z3.Select(nm, r)]))
+                st.heap[("F", owner, f)] = nm
+        write_block(cls, 0, vals)
+        for bi, (icls, ivals) in enumerate(nested):
+            write_block(icls, 1 + bi, ivals)
+        st.alloc = base + total_blocks * nlen
+        na = st.fresh("alloc", z3.IntSort())
+        st.assume(na == st.alloc)
+        st.alloc = na
+        res = eng.new_list(st, TObj(cls.name), nlen)
+        dst = z3.Select(st.eltmap(z3.IntSort()), res.ref)
+        st.assume(FA([k], z3.Implies(z3.And(k >= 0, k < nlen), z3.Select(dst, k) == ref_of(0, k)), patterns=[z3.Select(dst, k)]))
+        eng.used_assumptions.add("comprehension over a constructor: one fresh object per element (consecutive references), "
+                                 "fields set from the constructor arguments")
+        return res
 
     def comp_safety(self, st, n, g, itv, arr, nlen, bind):
         """Evaluate conditions and element once on a generic element in normal (non-spec) mode so that
